@@ -397,3 +397,196 @@ Proof.
     + intros Hv. destruct (H1 Hv). split; auto. lia.
     + intros Hv x Hx. apply H2; auto. lia.
 Qed.
+
+Definition tagref_in_use (st : mst) (base r : Z) : Prop :=
+  exists d, In d (m_slots st) /\ live d = true /\ BASETAG (d_tag d) = base /\ d_ref d = r.
+
+(** the per-tag bit-vectors mirror the live descriptors (bit 0 is the "ref 0 cannot be stored" kludge) *)
+Definition tree_bits_ok (st : mst) : Prop :=
+  forall base,
+    match tt_find (m_tree st) base with
+    | None => forall r, ~ tagref_in_use st base r
+    | Some ti => bv_wf (ti_bv ti) /\ bv_bit (ti_bv ti) 0 = true /\
+                 forall r, 1 <= r -> (bv_bit (ti_bv ti) r = true <-> tagref_in_use st base r)
+    end.
+
+(** Htagnewref: the reference handed out is unused for the (base) tag; 0 only when all 65535 are in use *)
+Lemma htagnewref_fresh_lemma : forall st t st' v, tree_bits_ok st -> htagnewref st t = (st', v) ->
+  (v <> 0 -> 1 <= v <= MAX_REF /\ ~ tagref_in_use st (BASETAG t) v) /\
+  (v = 0 -> forall x, 1 <= x <= MAX_REF -> tagref_in_use st (BASETAG t) x) /\
+  m_slots st' = m_slots st.
+Proof.
+  intros st t st' v Hok H. unfold htagnewref in H. specialize (Hok (BASETAG t)).
+  destruct (tt_find (m_tree st) (BASETAG t)) as [ti|].
+  - destruct Hok as (Wf & H0 & Hbits).
+    destruct (bv_find_next_zero_spec _ Wf) as (b' & r & Hz & _ & _ & Hr0 & Hclr & Hlow).
+    rewrite Hz in H.
+    assert (Hr1 : 1 <= r). { destruct (Z.eq_dec r 0) as [->|]; [congruence|lia]. }
+    destruct (Z.ltb_spec MAX_REF r) as [Hbig|Hsmall]; apply pair_equal_spec in H; destruct H as [<- <-];
+      cbn [set_tree m_slots].
+    + split; [congruence|]. split; [|reflexivity]. intros _ x Hx. apply Hbits; [lia|]. apply Hlow. lia.
+    + split; [|split; [|reflexivity]].
+      * intros _. split; [lia|]. intros Hu. apply Hbits in Hu; [|lia]. congruence.
+      * intros ->. lia.
+  - apply pair_equal_spec in H. destruct H as [<- <-]. split; [|split; [discriminate|reflexivity]].
+    intros _. split; [unfold MAX_REF; lia|]. apply Hok.
+Qed.
+
+(* ------------------------------------------------------------------------------------------ *)
+(** * The observers of the model against the specification map *)
+
+Definition inv (st : mst) : Prop :=
+  (0 < nddsn st)%nat /\ index_ok st /\ maxref_ok st /\ tree_bits_ok st /\ no_free_tags st.
+
+Lemma ref_used_iff : forall st s v, Permutation (abs st) s -> (ref_used s v = true <-> ref_in_use st v).
+Proof.
+  intros st s v Hp. unfold ref_used. rewrite existsb_exists. split.
+  - intros (e & Hin & He). apply (Permutation_in _ (Permutation_sym Hp)) in Hin. unfold abs in Hin.
+    apply in_map_iff in Hin. destruct Hin as (d & <- & Hd). apply filter_In in Hd. destruct Hd.
+    exists d. repeat split; auto. apply Z.eqb_eq. exact He.
+  - intros (d & Hin & Hl & Hd). exists (entry_of d). split.
+    + apply (Permutation_in _ Hp). unfold abs. apply in_map. apply filter_In. auto.
+    + cbn [entry_of e_ref]. apply Z.eqb_eq. exact Hd.
+Qed.
+
+Lemma tagref_used_iff : forall st s t v, Permutation (abs st) s ->
+  (tagref_used s t v = true <-> tagref_in_use st (BASETAG t) v).
+Proof.
+  intros st s t v Hp. unfold tagref_used, key_eq. rewrite existsb_exists. split.
+  - intros (e & Hin & He). apply (Permutation_in _ (Permutation_sym Hp)) in Hin. unfold abs in Hin.
+    apply in_map_iff in Hin. destruct Hin as (d & <- & Hd). apply filter_In in Hd. destruct Hd.
+    apply andb_true_iff in He. destruct He as [Ha Hb]. apply Z.eqb_eq in Ha. apply Z.eqb_eq in Hb.
+    exists d. repeat split; auto.
+  - intros (d & Hin & Hl & Hb & Hd). exists (entry_of d). split.
+    + apply (Permutation_in _ Hp). unfold abs. apply in_map. apply filter_In. auto.
+    + cbn [entry_of e_tag e_ref]. rewrite Hb, Hd, !Z.eqb_refl. reflexivity.
+Qed.
+
+Lemma all_used_spec : forall used fuel r,
+  all_used used fuel r = true <-> forall x, r <= x < r + Z.of_nat fuel -> used x = true.
+Proof.
+  induction fuel as [|k IH]; intros r; cbn [all_used].
+  - split; auto. intros; lia.
+  - rewrite andb_true_iff, IH. split.
+    + intros [H1 H2] x Hx. destruct (Z.eq_dec x r) as [->|]; auto. apply H2. lia.
+    + intros H. split; [apply H; lia|]. intros x Hx. apply H. lia.
+Qed.
+
+Lemma newref_ok_spec : forall (used : Z -> bool) (P : Z -> Prop) v,
+  (forall x, used x = true <-> P x) ->
+  (v <> 0 -> 1 <= v <= MAX_REF /\ ~ P v) -> (v = 0 -> forall x, 1 <= x <= MAX_REF -> P x) ->
+  newref_ok used v = true.
+Proof.
+  intros used P v Hu H1 H2. unfold newref_ok. destruct (Z.eqb_spec v 0) as [->|Hv].
+  - apply all_used_spec. intros x Hx. apply Hu. apply H2; auto. rewrite Z2Nat.id in Hx by (unfold MAX_REF; lia). lia.
+  - destruct (H1 Hv) as [Hr Hn]. unfold mut_ref. apply andb_true_iff. split.
+    + apply andb_true_iff. split; apply Z.leb_le; lia.
+    + apply negb_true_iff. destruct (used v) eqn:E; auto. exfalso. apply Hn. apply Hu. exact E.
+Qed.
+
+Lemma filter_perm_length : forall (g : entry -> bool) a b, Permutation a b -> length (filter g a) = length (filter g b).
+Proof. intros g a b H. induction H; cbn [filter]; auto; try congruence; repeat destruct (g _); cbn [length]; congruence. Qed.
+
+(** In every state satisfying the invariants and representing the map [s], each observing operation of the
+    model returns what the specification returns from [s] (counts exactly, enumerations as the same list of
+    entries in table order / reverse table order, fresh references that the specification accepts), and
+    leaves the represented map unchanged. *)
+Lemma observers_refine_lemma : forall st s, inv st -> Permutation (abs st) s ->
+  (forall t, obs_tag t = true -> m_step st (ONumber t) = (st, snd (s_step s (ONumber t)))) /\
+  (forall t r, t <> DFTAG_NULL -> (t = DFTAG_WILDCARD \/ r = DFREF_WILDCARD) ->
+     snd (m_step st (OFindall t r DF_FORWARD)) =
+       RList (map triple (filter (fun e => tag_matches t e && ref_matches r e) (abs st))) /\
+     snd (m_step st (OFindall t r DF_BACKWARD)) =
+       RList (rev (map triple (filter (fun e => tag_matches t e && ref_matches r e) (abs st))))) /\
+  (forall x st' v, m_step st (ONewref x) = (st', RVal v) ->
+     snd (s_step s (ONewref v)) = ROk /\ abs st' = abs st) /\
+  (forall t x st' v, mut_tag t = true -> m_step st (OTagnewref t x) = (st', RVal v) ->
+     snd (s_step s (OTagnewref t v)) = ROk /\ abs st' = abs st).
+Proof.
+  intros st s (Hn & Hidx & Hmax & Htree & Hnf) Hp. split; [|split; [|split]].
+  - intros t Ht. cbn [m_step s_step]. rewrite Ht. cbn [negb snd].
+    rewrite hnumber_exact_lemma by auto. rewrite (filter_perm_length _ _ _ Hp). reflexivity.
+  - intros t r Ht Hw. destruct (find_enumerates_once_lemma st t r Hidx Ht Hw) as [Hf Hb].
+    cbn [m_step snd]. rewrite Hf, Hb. split; reflexivity.
+  - intros x st' v H. cbn [m_step] in H. destruct (hnewref st) as [st1 v1] eqn:E.
+    apply pair_equal_spec in H. destruct H as [<- Hv]. injection Hv as <-.
+    destruct (hnewref_fresh_lemma _ _ _ Hmax E) as (H1 & H2 & Hsl & _).
+    cbn [s_step snd]. split; [|unfold abs; rewrite Hsl; reflexivity].
+    rewrite (newref_ok_spec _ (ref_in_use st) v1 (fun x => ref_used_iff st s x Hp) H1 H2). reflexivity.
+  - intros t x st' v Hmt H. cbn [m_step] in H. destruct (htagnewref st t) as [st1 v1] eqn:E.
+    apply pair_equal_spec in H. destruct H as [<- Hv]. injection Hv as <-.
+    destruct (htagnewref_fresh_lemma _ _ _ _ Htree E) as (H1 & H2 & Hsl).
+    cbn [s_step snd]. rewrite Hmt. cbn [orb negb]. split; [|unfold abs; rewrite Hsl; reflexivity].
+    rewrite (newref_ok_spec _ (tagref_in_use st (BASETAG t)) v1 (fun x => tagref_used_iff st s t x Hp) H1 H2). reflexivity.
+Qed.
+
+(* ------------------------------------------------------------------------------------------ *)
+(** * Disk image of the DD blocks: re-parsing what a full flush writes gives back the table *)
+
+Definition image_hdrs (i m nblk : nat) : list (option bool) :=
+  map (fun k => Some (negb (S k =? nblk)%nat)) (seq i m).
+
+Lemma unwrap_firstn_some : forall n (l : list dd),
+  map (fun o => match o with Some d => d | None => zero_dd end) (firstn n (map Some l)) = firstn n l.
+Proof. intros n l. rewrite firstn_map, map_map. apply map_id. Qed.
+
+Lemma read_image : forall n m i nblk slots, (nblk - i = S m)%nat -> length slots = (S m * n)%nat ->
+  read_blocks n (image_hdrs i (S m) nblk) (map Some slots) = Some (slots, S m).
+Proof.
+  intros n. induction m as [|m IH]; intros i nblk slots Hi Hl.
+  - unfold image_hdrs. cbn [seq map read_blocks]. replace (S i =? nblk)%nat with true by (symmetry; apply Nat.eqb_eq; lia).
+    cbn [negb]. rewrite unwrap_firstn_some. rewrite firstn_all2 by lia. reflexivity.
+  - unfold image_hdrs. change (seq i (S (S m))) with (i :: seq (S i) (S m)). cbn [map].
+    change (map (fun k => Some (negb (S k =? nblk)%nat)) (seq (S i) (S m))) with (image_hdrs (S i) (S m) nblk).
+    cbn [read_blocks].
+    replace (S i =? nblk)%nat with false by (symmetry; apply Nat.eqb_neq; lia). cbn [negb].
+    rewrite unwrap_firstn_some. rewrite skipn_map.
+    rewrite (IH (S i) nblk (skipn n slots)); [|lia|rewrite skipn_length; lia].
+    rewrite firstn_skipn. reflexivity.
+Qed.
+
+(** HTPsync with every block dirty writes exactly that image *)
+Lemma sync_all_dirty : forall n m k nblk slots dhdr dslots,
+  length dhdr = m -> (k + m = nblk)%nat -> length slots = (m * n)%nat -> length dslots = (m * n)%nat ->
+  sync_blocks n k nblk (repeat true m) slots dhdr dslots = (image_hdrs k m nblk, map Some slots).
+Proof.
+  intros n. induction m as [|m IH]; intros k nblk slots dhdr dslots Hh Hk Hs Hd.
+  - destruct slots; [|simpl in Hs; lia]. destruct dhdr; [|simpl in Hh; lia]. reflexivity.
+  - destruct dhdr as [|h dhdr]; [simpl in Hh; lia|]. cbn [repeat sync_blocks].
+    rewrite (IH (S k) nblk (skipn n slots) dhdr (skipn n dslots)); try lia;
+      try (rewrite skipn_length; lia); [|simpl in Hh; lia].
+    unfold image_hdrs. change (seq k (S m)) with (k :: seq (S k) m). cbn [map]. f_equal.
+    rewrite <- map_app, firstn_skipn. reflexivity.
+Qed.
+
+(* ------------------------------------------------------------------------------------------ *)
+(** * HTPdelete with caching off: what reaches the disk (depends on the generated call order) *)
+
+Lemma nth_upd_same : forall A (l : list A) p v d, (p < length l)%nat -> nth p (upd l p v) d = v.
+Proof. induction l as [|x l IH]; intros [|p] v d H; simpl in *; try lia; auto. apply IH. lia. Qed.
+
+Lemma htpdelete_writes_null_lemma : forall st p st',
+  m_cache st = false -> (p < length (m_slots st))%nat -> (p < length (m_dslots st))%nat ->
+  htpdelete st p = Some st' ->
+  d_tag (slot st' p) = DFTAG_NULL /\ nth p (m_dslots st') None = Some (slot st' p).
+Proof.
+  intros st p st' Hc Hp Hd H. unfold htpdelete in H. unfold HTPdelete_calls in H. cbn [fold_left htpdelete_step] in H.
+  change (0 =? 1) with false in H. change (0 =? 2) with false in H. change (2 =? 1) with false in H.
+  change (2 =? 2) with true in H. change (1 =? 1) with true in H. change (3 =? 1) with false in H.
+  change (3 =? 2) with false in H. cbv iota in H.
+  set (st0 := set_null st None) in *. cbn [htpdelete_step] in H.
+  change (2 =? 1) with false in H. change (2 =? 2) with true in H. change (1 =? 1) with true in H. cbv iota in H.
+  destruct (unregister_tag_ref (m_tree st0) (d_tag (slot st0 p)) (d_ref (slot st0 p))) as [tr|]; [|discriminate].
+  injection H as <-. unfold update_dd, set_dd, set_tree, set_slots, slot, st0, set_null. cbn [m_cache m_slots m_dslots].
+  rewrite Hc. cbn [m_slots m_dslots]. rewrite !nth_upd_same by auto. split; reflexivity.
+Qed.
+
+Lemma reopen_parse_serialize_lemma : forall n m slots dhdr dslots,
+  length dhdr = S m -> length slots = (S m * n)%nat -> length dslots = (S m * n)%nat ->
+  let '(hs, ds) := sync_blocks n 0 (S m) (repeat true (S m)) slots dhdr dslots in
+  read_blocks n hs ds = Some (slots, S m).
+Proof.
+  intros n m slots dhdr dslots Hh Hs Hd.
+  rewrite (sync_all_dirty n (S m) 0 (S m) slots dhdr dslots Hh eq_refl Hs Hd).
+  apply read_image; auto.
+Qed.
